@@ -22,6 +22,7 @@ DIMS = [
     ('unitsclash', ['none', 'same-name-same-definition', 'same-name-different-definition', 'root-imports-same-name-different-definition', 'clash-with-child-units']),
     ('compclash', ['none', 'root-component-named-like-child', 'root-component-named-like-reference', 'root-child-named-like-import']),
     ('rootunits', ['local', 'imported-units-on-variable', 'imported-units-only-in-cn', 'same-units-imported-twice']),
+    ('mathblocks', ['one', 'two']),
 ]
 SCALE = {'metre': 1.0, 'mm': 1e-3, 'um': 1e-6, 'km': 1e3}
 
@@ -59,6 +60,7 @@ def cnu(x, u):
 def build(case):
     """returns root_doc, lib{url:doc}, expected{(comp,var):value}, notes"""
     st, inst, lu, uc, cc, ru = (case[k] for k in ('structure', 'instances', 'libunits', 'unitsclash', 'compclash', 'rootunits'))
+    case.setdefault('mathblocks', 'one')
     lib1_units, lib2_units = [], []
     # ---- units used by the library component's variables
     if lu == 'metre':
@@ -90,7 +92,12 @@ def build(case):
             eq = '<apply><eq/><ci>y</ci><apply><plus/><ci>zz</ci>%s</apply></apply>' % cnu(1.0, cn_units)
         else:
             eq = '<apply><eq/><ci>y</ci><apply><plus/><apply><times/>%s<ci>x</ci></apply>%s</apply></apply>' % (cnu(2.0, 'dimensionless'), cnu(1.0, cn_units))
-        return '<component name="%s">%s<math %s>%s</math></component>' % (T, ''.join(vs), MNS, eq)
+        extra = ''
+        if case['mathblocks'] == 'two':
+            # a second <math> element that does not mention any units that flattening may have to rename
+            vs.append('<variable name="q" units="%s" interface="public"/>' % xu)
+            extra = '<math %s><apply><eq/><ci>q</ci><apply><times/>%s<ci>x</ci></apply></apply></math>' % (MNS, cnu(3.0, 'dimensionless'))
+        return '<component name="%s">%s<math %s>%s</math>%s</component>' % (T, ''.join(vs), MNS, eq, extra)
 
     def comp_C(name, grandchild=False):
         vs = ['<variable name="w" units="%s" interface="%s"/>' % (child_u, 'public_and_private' if grandchild else 'public'),
